@@ -5,6 +5,7 @@ package c07
 
 import (
 	"fmt"
+	"strings"
 	"testing"
 
 	"pgregory.net/rapid"
@@ -23,6 +24,9 @@ type g struct {
 	id   int64
 	feat map[string]int
 	neg  bool // inside a form whose operand order is not specified: negative ids
+	// noFailingBody: callees whose body fails inside the interpreter (slice of a host array) are
+	// only called through a plain call expression (go / defer have their own failure handling)
+	noFailingBody bool
 }
 
 func (g *g) n(lo, hi int, l string) int { return rapid.IntRange(lo, hi).Draw(g.t, l) }
@@ -174,7 +178,20 @@ func (g *g) condE(d int) *N {
 }
 
 func (g *g) anyE(d int) *N {
-	switch g.n(0, 6, "any") {
+	switch g.n(0, 7, "any") {
+	case 7:
+		// containers supplied by the host: a nil Go map (no script-made map is nil), a Go array
+		switch g.n(0, 2, "hostc") {
+		case 0:
+			g.f("index_of_nil_host_map")
+			return &N{K: "idx", Ns: []*N{Id("hnil"), g.leaf(Str("k"), true)}}
+		case 1:
+			g.f("index_of_nil_host_map")
+			return &N{K: "idx", Ns: []*N{Id("hnilm"), g.intE(d - 1)}}
+		default:
+			g.f("index_of_host_array")
+			return &N{K: "idx", Ns: []*N{Id("harr"), g.leaf(Int(int64(g.n(0, 2, "hix"))), true)}}
+		}
 	case 0, 1:
 		return g.intE(d)
 	case 2:
@@ -223,6 +240,11 @@ var callees = []callee{
 	{"gvar", 2, true, nil, "go_variadic"},
 	{"gtyped", 3, false, []string{"int64", "string", "int64"}, "go_typed"},
 	{"gtvar", 2, true, []string{"string", "int64"}, "go_typed_variadic"},
+	// first argument is an address-of expression (the call writes the pointer back to variables)
+	{"gderef", 2, false, []string{"addr", "any"}, "go_pointer_argument"},
+	// script functions whose body fails inside the interpreter (not by throw): slice of a host array
+	{"sp0", 0, false, nil, "script_direct_failing_body"}, {"sp1", 1, false, nil, "script_direct_failing_body"}, {"sp2", 2, false, nil, "script_direct_failing_body"},
+	{"sp4", 4, false, nil, "script_direct_failing_body"}, {"sp5", 5, false, nil, "script_reflect_failing_body"},
 }
 
 func (g *g) argFor(c callee, i int, d int) *N {
@@ -235,6 +257,18 @@ func (g *g) argFor(c callee, i int, d int) *N {
 		typ = c.typed[j]
 	}
 	switch typ {
+	case "addr":
+		g.f("address_of_argument")
+		switch g.n(0, 3, "addrof") {
+		case 0:
+			return &N{K: "addr", Ns: []*N{Id(rapid.SampledFrom([]string{"x", "y", "acc"}).Draw(g.t, "addrid"))}}
+		case 1:
+			return &N{K: "addr", Ns: []*N{{K: "idx", Ns: []*N{Id("acc"), g.leaf(Int(int64(g.n(0, 2, "ai"))), true)}}}}
+		case 2:
+			return &N{K: "addr", Ns: []*N{{K: "idx", Ns: []*N{Id("accm"), g.leaf(Str("k"), true)}}}}
+		default:
+			return &N{K: "addr", Ns: []*N{{K: "idx", Ns: []*N{g.listE(d - 1), g.leaf(Int(int64(g.n(0, 1, "ix"))), true)}}}}
+		}
 	case "int64":
 		if g.n(0, 9, "badarg") == 0 {
 			g.f("conversion_error_operand")
@@ -255,6 +289,9 @@ func (g *g) argFor(c callee, i int, d int) *N {
 func (g *g) callE(d int, minRet int) *N {
 	var cands []callee
 	for _, c := range callees {
+		if g.noFailingBody && strings.HasSuffix(c.path, "failing_body") {
+			continue
+		}
 		if minRet < 0 || c.n >= minRet {
 			cands = append(cands, c)
 		}
@@ -360,10 +397,14 @@ func (g *g) root() *N {
 		return &N{K: "let", Ps: []string{"x"}, Ns: []*N{{K: "acall", Ns: []*N{{K: "fn", Ss: [][]*N{body}}}}}}
 	case 6:
 		g.f("go_call")
+		g.noFailingBody = true
+		defer func() { g.noFailingBody = false }()
 		c := g.callE(d, -1)
 		return &N{K: "go", Ns: []*N{c}}
 	case 7:
 		g.f("defer_call")
+		g.noFailingBody = true
+		defer func() { g.noFailingBody = false }()
 		c := g.callE(d, -1)
 		if c.B { // spread in defer is outside the modelled domain
 			c.B = false
@@ -405,7 +446,12 @@ func prelude() []*N {
 		out = append(out, &N{K: "let", Ps: []string{fmt.Sprintf("s%d", n)}, Ns: []*N{{K: "fn", Ps: append([]string{}, ps...), Ss: [][]*N{{{K: "ret", Ns: []*N{l}}}}}}})
 	}
 	out = append(out, &N{K: "let", Ps: []string{"sv"}, Ns: []*N{{K: "fn", Ps: []string{"a", "r"}, B: true, Ss: [][]*N{{{K: "ret", Ns: []*N{{K: "list", Ns: []*N{Id("a"), Id("r")}}}}}}}}})
+	for _, n := range []int{0, 1, 2, 4, 5} {
+		// body fails inside the interpreter: a Go array held by value cannot be sliced
+		out = append(out, &N{K: "let", Ps: []string{fmt.Sprintf("sp%d", n)}, Ns: []*N{{K: "fn", Ps: append([]string{}, names[:n]...), Ss: [][]*N{{{K: "ret", Ns: []*N{{K: "slice", Ns: []*N{Id("harr"), Int(0), Int(2)}}}}}}}}})
+	}
 	out = append(out, &N{K: "let", Ps: []string{"acc"}, Ns: []*N{{K: "list", Ns: []*N{Int(10), Int(20), Int(30)}}}})
+	out = append(out, &N{K: "let", Ps: []string{"accm"}, Ns: []*N{{K: "map", Ns: []*N{Str("k"), Int(1)}}}})
 	out = append(out, &N{K: "let", Ps: []string{"x", "y", "z"}, Ns: []*N{Int(0), Int(0), Int(0)}})
 	return out
 }
